@@ -314,4 +314,41 @@ theorem resolve_fuel_bound {α : Type} [DecidableEq α] (deps : α → List α) 
     exact List.length_filter_le _ _
   omega
 
+/-- the guard of the reference compiler (`circular`, the port of `HasCircularDependencies`) has the one
+property the termination argument needs: a node on the chain is guarded -/
+theorem circular_guards_chain (chain : RChain) (n : NodeId) (e : CEntry) (he : e ∈ chain) (hid : e.id = n) :
+    circular chain n = true := by
+  unfold circular
+  rw [List.any_eq_true]
+  exact ⟨e, he, by simp [hid, isPrefixOf_refl]⟩
+
+/-! ## non-vacuity: the hypotheses above are met by concrete, non-trivial values -/
+
+example : PlainKey Ex.kA := ⟨by decide, by decide, by decide, by decide, by decide⟩
+
+example : Flat [(Ex.kA, .scalar [49])] := by
+  intro kv h; simp at h; subst h
+  exact ⟨⟨by decide, by decide, by decide, by decide, by decide⟩, rfl, rfl⟩
+
+example : isListItemReference atBefore0 = true ∧ NoSlash atBefore0 := by decide
+
+-- `compile_plain` applies to the directive-free document `b.custom`
+example : compileDocCore Ex.docs 1 Ex.kBc
+    = { loaded := true, mem := .map [([121], .scalar [50])], saved := some (.map [([121], .scalar [50])]), fl := {} } :=
+  compile_plain Ex.docs 0 Ex.kBc _ rfl (by decide) (by decide) (Or.inl (by decide))
+
+-- the hypothesis of `include_is_copy_then_override` is met: `b.custom:/` resolves to that document's root
+example : (resolveRef Ex.docs (compile Ex.docs 1) [] (createReference Ex.kA (Ex.kBc ++ [58, 47]))).val
+    = some (.map [([121], .scalar [50])]) := by rfl
+
+-- the whole reference on the two-document set: `x` = copy of `b.custom`'s root with `z` merged over it
+example : ((compileDoc Ex.docs 10 5 Ex.kA).mem.beq
+    (.map [([107], .scalar [118]), ([120], .map [([121], .scalar [50]), ([122], .scalar [49])])])) = true := by decide
+
+-- `compile_pure`: `b.custom` is reachable from `a`, an unrelated name is not
+example : Ex.kBc ∈ closure Ex.docs 10 [Ex.kA] [] ∧ ([99] : Str) ∉ closure Ex.docs 10 [Ex.kA] [] := by decide
+
+-- a cyclic dependency map terminates with `false` (circular dependency detected)
+example : resolveAbs Ex.cyc (fun c n => decide (n ∈ c)) 3 [] 0 = some false := by decide
+
 end C14
